@@ -213,8 +213,8 @@ class PixCoord:
         separation : `numpy.array`
             The separation in pixels.
         """
-        dx = other.x - self.x
-        dy = other.y - self.y
+        dx = np.subtract(other.x, self.x, dtype=float)
+        dy = np.subtract(other.y, self.y, dtype=float)
         return np.hypot(dx, dy)
 
     @property
